@@ -476,6 +476,66 @@ def pref_sweep_shard(spec):
     return st.to_dict()
 
 
+# --- Miri: the clean-up's tree surgery on the raw-pointer DOM, interpreted -------------------------------------------------------------------
+def miri_cases(seed, n):
+    """small degenerate-but-valid expressions (the inputs that make the clean-up delete, lift, merge and re-parent nodes) that neither panic
+    nor die natively: under the interpreter every one of those pointer operations is checked"""
+    from . import gen_degen
+    rng = random.Random(seed)
+    out = []
+    with core.Driver("native") as d:
+        d.init({"TTS": "None", "Language": "zz"})
+        for _ in range(n * 6):
+            g = gen_degen.Degenerate(rng, max_depth=rng.choice([2, 3]), id_policy=rng.choice(["none", "some"]), p_empty=rng.choice([0.12, 0.3]), size_cap=rng.choice([8, 14]), html=False)
+            x = g.expression().xml()
+            if len(x) > 700 or not all(ord(c) < 0x3000 for c in x):
+                continue
+            try:
+                r = d.call("set_mathml", x)
+            except (core.DriverDied, core.DriverTimeout):
+                break
+            if r["r"] in ("ok", "err"):
+                out.append(x)
+            if len(out) >= n:
+                break
+    return out
+
+
+def miri_shard(spec):
+    st = core.Stats()
+    pre = [{"op": "set_rules_dir", "a": [core.RULES]}, {"op": "set_preference", "a": ["Language", "zz"]}, {"op": "set_preference", "a": ["TTS", "None"]}]
+    ops = pre + [{"op": "set_mathml", "a": [x]} for x in spec["cases"]]
+    results, stderr, rc = core.run_miri(ops, timeout=spec["timeout"])
+    done = max(0, len(results) - len(pre))
+    st.count("miri_set_mathml_results", done)
+    if rc is None:
+        st.notes.append("miri process stopped by its time limit (%d s) after %d of %d expressions" % (spec["timeout"], done, len(spec["cases"])))
+    if "Undefined Behavior" in stderr:
+        culprit = spec["cases"][min(done, len(spec["cases"]) - 1)]
+        m = [l.strip() for l in stderr.splitlines() if "Undefined Behavior" in l or l.strip().startswith("-->")]
+        where = next((l for l in m if "-->" in l and "/src/" in l), m[0] if m else "")
+        st.violations.append(core.violation("miri", "miri | undefined-behavior | %s" % re.sub(r":\d+:\d+$", "", where.replace("-->", "").strip().split("/")[-1])[:60],
+                                            {"cfg": 0, "kind": "miri", "flavour": "miri", "ops": [["set_mathml", culprit]]},
+                                            "Miri (Tree Borrows) reports undefined behaviour in set_mathml of %s: %s" % (culprit[:400], " | ".join(m[:4]))))
+    elif rc not in (0, None):
+        st.notes.append("miri process ended with status %s after %d expressions without an undefined-behaviour report (unsupported operation or resource limit): %s" % (
+            rc, done, stderr[-300:].replace("\n", " ")))
+    with core.Driver("native") as d:
+        d.init({"TTS": "None", "Language": "zz"})
+        for x, r in zip(spec["cases"], results[len(pre):]):
+            st.evaluations += 1
+            native = d.call("set_mathml", x)
+            a = strip_ids(r.get("v") or "") if r.get("r") == "ok" else r.get("r")
+            b = strip_ids(native.get("v") or "") if native.get("r") == "ok" else native.get("r")
+            if a != b:
+                st.violations.append(core.violation("miri-differs", "miri-differs | set_mathml", {"cfg": 0, "kind": "miri", "flavour": "native", "ops": [["set_mathml", x]]},
+                                                    "set_mathml gives another result under the interpreter than in the native build for %s: %r vs %r" % (x[:300], str(a)[:200], str(b)[:200])))
+            else:
+                st.count("miri_results_equal_to_native")
+                st.nontrivial.add(core.h16("miri|" + x))
+    return st.to_dict()
+
+
 # --- fixed obligations: uninitialised use, key codes, nesting depth ----------------------------------------------------------------------
 ALL_CALLS = [("get_version",), ("get_spoken_text",), ("get_overview_text",), ("get_braille", ""), ("get_braille", "x"), ("get_navigation_braille",), ("get_navigation_mathml",),
              ("get_navigation_mathml_id",), ("get_braille_position",), ("get_navigation_node_from_braille_position", 0), ("get_navigation_node_from_braille_position", 7),
@@ -732,6 +792,19 @@ def run(tier, seed):
         extra["instrumented_runs"][flavour] = {"calls": sum(x.get("evaluations", 0) for x in r if x and "evaluations" in x),
                                                "violations": sum(len(x.get("violations", [])) for x in r if x and "violations" in x)}
         results += r
+    if tier == "thorough" and os.environ.get("VERIF_NO_MIRI") != "1":
+        # the interpreter needs ~15 min before its first answer (rule loading), then seconds per expression: 4 processes side by side
+        try:
+            n_proc, per = 4, 30
+            cases = miri_cases(core.sub_seed(seed, PROP, "miri"), n_proc * per)
+            mr = core.run_shards(miri_shard, [{"cases": cases[i::n_proc], "timeout": 3000} for i in range(n_proc)], procs=n_proc)
+            extra["miri"] = {"flags": "-Zmiri-disable-isolation -Zmiri-tree-borrows", "language": "zz", "processes": n_proc, "expressions": len(cases),
+                             "results": sum((x.get("counters") or {}).get("miri_set_mathml_results", 0) for x in mr if x),
+                             "note": "Stacked Borrows is not used: it objects to the XML DOM dependency (sxd-document) on the first parse; a process that "
+                                     "runs into its time limit or an unsupported operation is stated in the notes, never judged"}
+            results += mr
+        except (core.Inconclusive, OSError) as e:
+            extra["miri"] = {"not_run": str(e)[:300]}
     stats, errors = core.Stats.merge(results)
     known, fixed_failures, extra_v = core.replay_findings(PROP, replay)
     stats.violations.extend(extra_v)
